@@ -112,6 +112,12 @@ pub fn gen_sources(rng: &mut Rng, tier: &Tier) -> Vec<Case> {
             }
         }
     }
+    // the into-iterator bridge consumed through `Iterator::skip` / `step_by` (both built on `nth`) instead of `next`
+    for _ in 0..tier.n(80, 800) {
+        let e = src_expr(rng, 2, false);
+        let view = if rng.chance(1, 2) { format!("rtskip({},{})", rng.range(0, 4), e) } else { format!("rtstep({},{})", rng.range(1, 4), e) };
+        cases.push(pulls_case(&view, rng.range(3, 9) as usize));
+    }
     // random trees of depth <= 3
     for _ in 0..tier.n(600, 8000) {
         let e = src_expr(rng, 3, false);
@@ -357,6 +363,18 @@ pub fn gen_sinks(rng: &mut Rng, tier: &Tier) -> Vec<Case> {
                 let x = k * m - (k - 1) * prev_mean;
                 prev_mean = m;
                 c.push(if as_filter { format!("ff 1 {}", x) } else { format!("sink 1 {}", x) });
+                c.push("fin 1".into());
+            }
+            cases.push(c);
+        }
+    }
+    // zeros of either sign (sample type `fz`): what `Last` hands back is the last sample it received, as the value it is;
+    // min / max / bounds hand back one of the samples they received
+    for kind in ["sink_last_fz", "sink_last_fz", "sink_min_fz", "sink_max_fz", "sink_bounds_fz"] {
+        for _ in 0..tier.n(20, 200) {
+            let mut c = vec![format!("new 1 {}", kind), "fin 1".to_string()];
+            for _ in 0..rng.range(1, 8) {
+                c.push(format!("sink 1 {}", rng.pick(&["0", "-0", "0", "-0", "1", "-1"])));
                 c.push("fin 1".into());
             }
             cases.push(c);
